@@ -278,12 +278,19 @@ def run_native(oset_name, inputs):
             "checked_names": sorted(set(h.checked))}
 
 
-def search_native(oset_name, seed, tries=4000):
+def search_native(oset_name, seed, tries=4000, budget_s=None):
+    """Bounded native search: the proof script on the real package with random inputs inside the declared ranges.
+    `budget_s` bounds the wall-clock time of the whole search (the number of inputs actually run is reported)."""
+    import time as _time
     o = find_oset(oset_name)
     rng = random.Random(seed)
     ran = 0
     evaluated = 0
+    names = set()
+    t_end = None if budget_s is None else _time.time() + budget_s
     for _ in range(tries):
+        if t_end is not None and _time.time() > t_end:
+            break
         h = RandomHarness(rng, oset_name)
         try:
             with wall_clock_limit(NATIVE_LIMIT_S):
@@ -299,11 +306,13 @@ def search_native(oset_name, seed, tries=4000):
             return {"reproduced": False, "note": "this obligation set has no native reading", "tries": 0}
         ran += 1
         evaluated += len(h.checked)
+        names.update(h.checked)
         if h.failed:
             return {"reproduced": True, "failed": [f[0] for f in h.failed], "inputs": _jsonable(h.inputs), "tries": ran, "evaluated": evaluated}
         if not h.inputs:
             break  # a script without inputs (a fixed schedule library, a lemma over all grid values): one run says it all
-    return {"reproduced": False, "note": f"bounded native search: {ran} random inputs, no failing one", "tries": ran, "evaluated": evaluated}
+    return {"reproduced": False, "note": f"bounded native search: {ran} random inputs, no failing one", "tries": ran, "evaluated": evaluated,
+            "checked_names": sorted(map(str, names))}
 
 
 def _jsonable(d):
